@@ -40,6 +40,13 @@ TEXT.update({
 TEXT["C15"] = ("Lean theorems over an abstract file system: membership in the walk result characterised exactly (regular file, .go suffix, reached only through non-excluded directories including the named one), symlinks/other never, each path once (sortUniq membership) ; the README literals vendor/testdata/./_ are decided in Lean. Tie: trees created on disk, processed list read from the binary's -v lines vs the model findFiles.",
          "6 C15", "Lean 4 proof over file-system walk model + black-box correspondence on generated directory trees")
 
+TEXT["C08"] = ("Lean theorems: the replacers never produce a panic outcome (every failure is an error value), the '...' scanner is defined by well-founded recursion on the remaining tokens (termination checked by the kernel) and the pre-fix loop is refuted for every fuel; sectioning and metavariable parsing are total by construction. Tie: truncated / byte-mutated / ill-typed patches through patch.Parse+Apply under watchdogs, the CLI under timeout, augment.Augment vs the Lean finder+rewrite on every prefix of patch bodies, engine outcome class vs the model. Partial: go/scanner, go/parser, go/printer, imports.Process, intervalset and memory use are not modelled.",
+         "6 C08", "Lean 4 proof (totality / no-panic / well-founded scanner) + differential and watchdog streams on malformed input")
+TEXT["C13"] = ("Lean theorems: '#' lines never reach the section state machine and descriptions are exactly the run above the header; names are only stored; the association of '...' depends on patch positions only through their order (connectDots commutes with every order-preserving relabelling). Tie: layout transformations of generated patches must leave the real engine's canonical result unchanged; descriptions via section.Split vs model. Partial: go/scanner+go/parser layout-insensitivity is assumed.",
+         "6 C13", "Lean 4 proof (section model, relabelling invariance) + metamorphic layout stream on the real engine")
+TEXT["C19"] = ("Lean theorems: a rejected change name is reported at the byte that is the offending character of that header line; junk where a header is expected at column 1 of its line; the metavariable scratch buffer is the patch lines byte for byte (offset mapping). Tie: section.Split, parse.Parse, engine.Compile and patch.Parse on multi-change patches with one injected fault vs the Lean model (Sec.split, parseMeta over go/scanner's tokens, compileMetaErrs, mapPos) and vs the injection point; CLI exit/stderr/no rewrite.",
+         "6 C19", "Lean 4 proof over section/meta model + differential front stream with injected faults")
+
 REASONS = {}
 
 def main():
